@@ -24,20 +24,24 @@ import (
 // bubble against simmesos (master + agents + executors + tasks) and simconsul.
 
 type taskSpec struct {
-	Role     string            `json:"role"`
-	Class    string            `json:"class"`
-	Host     string            `json:"host"`
-	Critical bool              `json:"critical"`
-	Mode     string            `json:"mode"`
-	Start    string            `json:"start"`              // ok | late | fails | never
-	OnEvent  map[string]string `json:"on_event,omitempty"` // transition event -> outcome name
-	Hook     string            `json:"hook_trigger,omitempty"`
-	HookExit int               `json:"hook_exit,omitempty"`
-	HookEnd  string            `json:"hook_end,omitempty"` // "", exit1, signal, involuntary, never
-	WantCpu  float64           `json:"want_cpu,omitempty"` // more than any agent has: cannot be placed
+	Role      string            `json:"role"`
+	Class     string            `json:"class"`
+	Host      string            `json:"host"`
+	Critical  bool              `json:"critical"`
+	Mode      string            `json:"mode"`
+	Start     string            `json:"start"`              // ok | late | fails | never
+	OnEvent   map[string]string `json:"on_event,omitempty"` // transition event -> outcome name
+	Hook      string            `json:"hook_trigger,omitempty"`
+	HookExit  int               `json:"hook_exit,omitempty"`
+	HookEnd   string            `json:"hook_end,omitempty"`   // "", exit1, signal, involuntary, never
+	WantCpu   float64           `json:"want_cpu,omitempty"`   // more than any agent has: cannot be placed
+	HookQuick bool              `json:"hook_quick,omitempty"` // its child ends before the trigger is acknowledged
 }
 
 type wfSpec struct {
+	// CallHook: a call role started at enter_CONFIGURED (during creation) and awaited at
+	// after_STOP_ACTIVITY: pending for as long as no run was stopped
+	CallHook      bool        `json:"pending_call_hook,omitempty"`
 	Name          string      `json:"name"`
 	Hosts         []string    `json:"hosts"`
 	Tasks         []*taskSpec `json:"tasks"`
@@ -142,7 +146,10 @@ func yamlWorkflow(w *wfSpec) string {
 			}
 		}
 	}
-	if len(w.Tasks) == 0 {
+	if w.CallHook {
+		b.WriteString("  - name: pendingcall\n    call:\n      func: sp.Probe()\n      trigger: enter_CONFIGURED\n      await: after_STOP_ACTIVITY\n      timeout: 10m\n      critical: false\n")
+	}
+	if len(w.Tasks) == 0 && !w.CallHook {
 		b.WriteString("  []\n")
 	}
 	return b.String()
@@ -237,6 +244,7 @@ func body(c *hk.Ctx) {
 			case 7:
 				t.HookEnd = "never" // runs into its 20 s timeout
 			}
+			t.HookQuick = c.W(3, "hook-quick") == 2
 			wf.Tasks = append(wf.Tasks, t)
 		}
 	}
@@ -271,7 +279,7 @@ func body(c *hk.Ctx) {
 			return nil
 		}
 		ts := &simmesos.TaskScript{OnCommand: map[string]simmesos.Outcome{}, HookExit: sp.HookExit,
-			HookInvoluntary: sp.HookEnd == "involuntary", HookNeverTerminates: sp.HookEnd == "never"}
+			HookInvoluntary: sp.HookEnd == "involuntary", HookNeverTerminates: sp.HookEnd == "never", HookQuick: sp.HookQuick}
 		switch sp.Start {
 		case "late":
 			ts.StartDelay = time.Duration(wf.DeployTimeout)*time.Second + 20*time.Second
